@@ -28,10 +28,10 @@ claim('C01', 'effect analysis over resolved MIR (banned-source reachability, has
       'rosu-map/rosu-mods at locked versions', 'DESIGN.md §5 C01')
 
 claim('C02', 'sibling comparison of entry points over resolved MIR (parameter-use classification + preprocessor sets with dominating guards)',
-      'Decides one necessary clause: gradual constructor and one-shot calculation of each mode start from the same converted '
-      'and preprocessed map (same convert_ref(mode, mods), same &mut Beatmap preprocessors under the same guards). '
-      'Equality of values per prefix is numeric and not decided. The suite uses no mods in gradual tests, so a forgotten '
-      'preprocessor is invisible to it.',
+      'Decides structural necessary clauses: gradual constructor and one-shot calculation of each mode start from the same converted '
+      'and preprocessed map (same convert_ref(mode, mods), same &mut Beatmap preprocessors and direct map writes under the same guards); both consult the '
+      'same Difficulty settings; gradual count state is written only by its delta function / table; no (x/rate)*rate round trip feeds a truncation; a mode '
+      'whose skills read a forward neighbour does not cut the one-shot object list at passed_objects. Equality of values per prefix is numeric and not decided.',
       'exported MIR + resolved call graph; helper following bounded at depth 3', 'DESIGN.md §5 C02')
 claim('C07', 'sibling decision-tree comparison, arm summaries of GameMode switches, parameter-use classification, provenance of forwarded fields',
       'Decides the dispatch/conversion shape for all entry points, arms and paths: convert_ref/convert_mut path sets equal, '
@@ -50,7 +50,8 @@ claim('C05', 'loop classification over MIR natural loops (float-accumulator abso
 claim('C12', 'provenance with closure / Option-combinator expansion (clamp reachability), sibling field-map comparison',
       'Decides five clauses: calculate() = generate_state() + calculator; provided misses and provided combo reach the state only '
       'below min(_, bound) in every mode; the 8 ScoreState conversions are mutually inverse permutations; state(), the write-back of '
-      'generate_state() and the single setters agree on one field map (24 rows). Remainder arithmetic is not decided.',
+      'generate_state() and the single setters agree on one field map (24 rows); no remainder in generate_state takes the misses off the object count '
+      'more than once (linear forms over object count and clamped misses). The rest of the remainder arithmetic is not decided.',
       'exported MIR; closures and Option::{map_or, map_or_else, unwrap_or_else, ...} interpreted by the rule library', 'DESIGN.md §5 C12')
 
 claim('C10', 'per-configuration type check + configuration-independent body fingerprints (resolved callees/constants/kinds) + guard dataflow under both RefCount bodies',
@@ -73,7 +74,8 @@ claim('C03', 'provenance of the receiver chain in nth() and of the constructor a
       'exported MIR; next/last delegation is checked by C15-R1', 'DESIGN.md §5 C03')
 claim('C04', 'provenance of attribute sources, who-may-write on calculator attributes, pass-through check of 32 conversions',
       'Decides the flow clauses: Map-case attributes come from self.difficulty.calculate_for_mode::<own mode>(own map); the attributes embedded in a '
-      'result are the unmodified calculator input; every attribute-to-builder conversion passes attrs / attrs.difficulty through untouched. '
+      'result are the unmodified calculator input and reach the calculator untouched; every attribute-to-builder conversion passes attrs / attrs.difficulty '
+      'through untouched and every map-to-builder conversion hands the map over as given (no conversion before the mods are known). '
       'Numeric equality of the two paths is not decided.', 'exported MIR', 'DESIGN.md §5 C04')
 claim('C06', 'call-graph-scoped decoder discipline: bounded-parse dominance, clamp provenance, tandem-sort pairing, who-may-write on control point vectors, panic-API reachability',
       'Decides the decoder discipline on every function reachable from the 11 parse_* methods and From<BeatmapState>: raw primitive parses are bound-tested '
@@ -90,7 +92,9 @@ claim('C14', 'provenance of is_convert in every attribute construction (interpro
       'All counting clauses are arithmetic over runtime values and not decided.', 'exported MIR', 'DESIGN.md §5 C14')
 claim('C15', 'delegation shape check (single call, parameter pass-through, constants) and arm summaries of the enum wrappers',
       'Decides the delegation clauses: next = nth(0), last = nth(usize::MAX), len = inner len, 24 wrapper arms forward to the same-named payload method '
-      'and re-wrap in their own variant, size_hint = (len, Some(len)). nth(n) = n+1 nexts and exhaustion behaviour are not decided.', 'exported MIR', 'DESIGN.md §5 C15')
+      'and re-wrap in their own variant, size_hint = (len, Some(len)); len() consults every collection whose emptiness ends next() and measures the collection '
+      'that terminates it; nth past the end is a guarded None; the caller\'s n enters overflow-capable arithmetic only after being bounded. '
+      'nth(n) = n+1 nexts is not decided. One known finding (taiko len/next mismatch on tiny maps).', 'exported MIR', 'DESIGN.md §5 C15')
 claim('C16', 'evaluated associated constants at use sites (loop step of the section accumulator), provenance of exported peaks, sibling preprocessing rule',
       'Decides: the section length each of the 9 skills really advances by equals its mode\'s published SECTION_LEN (inherent shadowing resolved by rustc, '
       'not by name); export and aggregation both close the open section through get_current_strain_peaks; strains() runs the same '
@@ -99,7 +103,8 @@ claim('C16', 'evaluated associated constants at use sites (loop step of the sect
 claim('C17', 'provenance from builder output to calculator fields; setter/getter/output slot triangle by read-set of self fields',
       'Decides the flow clauses: build() embeds hit_windows(); calculators copy AR/HP/hit windows from the builder configured with the converted map and '
       'the Difficulty parameter; the builder\'s difficulty() takes every value from the same-named getter; each public setter feeds exactly the public '
-      'output of its name. Monotonicity / round trip / HR-EZ ordering are not decided.', 'exported MIR', 'DESIGN.md §5 C17')
+      'output of its name; HR/EZ-dependent scaling of a slot value happens only where that slot\'s with_mods() is known false. '
+      'Monotonicity / numeric round trip / HR-EZ ordering are not decided.', 'exported MIR', 'DESIGN.md §5 C17')
 claim('C18', 'struct-delta provenance of setters, arm summaries of 92 dispatch arms against tcx method tables, doc-table parsing, field-map comparison',
       'Decides: all 31 mode setters forward their own parameters to the same-named Difficulty setter; every Performance enum arm forwards per rename table or '
       'is a no-op exactly when the payload type has no such method; clamp constants equal every documented Minimum/Maximum table; inspect / '
